@@ -3,4 +3,4 @@ from . import classlaws
 
 
 def build(repo, tier, seed):
-    return classlaws.bundle(repo, tier, seed, ("L5", "L5b", "L5d", "L6v", "L10"))
+    return classlaws.bundle(repo, tier, seed, ("L5", "L5b", "L5d", "L6v", "L10"), classes=classlaws.READY + ["Dataset"])
